@@ -12,7 +12,7 @@ def sh(cmd, cwd=None, env=None, timeout=900):
     return p.returncode, (p.stdout + p.stderr)
 
 def one(pid, x):
-    src = f"/tmp/seed/{pid}/out/{x}"
+    src = f"{BASE}/{pid}/out/{x}"
     sid = f"{pid}-{x}"
     wt = tempfile.mkdtemp(prefix=f"confirm-{sid}-")
     os.rmdir(wt)
@@ -51,6 +51,8 @@ def one(pid, x):
                    "needs_to_manifest": "see notes.md", "confirmed_by_me": ran, "caught_by": None},
                   open(f"{dst}/meta.json", "w"), indent=1)
     return okay
+
+BASE = os.environ.get("SEED_BASE", "/tmp/seed")
 
 if __name__ == "__main__":
     a = sys.argv[1:]
